@@ -114,8 +114,10 @@ func Run(h History, or Oracles) (fails []Fail, st RunStats, err error) {
 		if or.TraceCk && op.K == "sync" && e.LS != nil && e.Reader == nil && h.Cfg.MaxSyncWALBytes == 0 && h.Cfg.CheckpointInterval == 0 && e.LS.SQLDB() != nil {
 			ck = e.ckBefore()
 		}
-		if or.TraceVerify && (op.K == "sync" || op.K == "syncwait") && e.LS != nil && e.LS.SQLDB() != nil {
-			if vo := e.verifyObs(); vo != nil {
+		if or.TraceVerify && (op.K == "sync" || op.K == "syncwait") && e.LS != nil {
+			if ok, err := e.LS.VerifInit(e.Ctx); err != nil || !ok {
+				// init fails or no database: the sync below reports it
+			} else if vo := e.verifyObs(); vo != nil {
 				st.VerifyObs = append(st.VerifyObs, *vo)
 			}
 		}
@@ -720,4 +722,3 @@ type VerifyObs struct {
 	Real string
 }
 
-func (e *Env) verifyObs() *VerifyObs { return nil }
